@@ -949,6 +949,43 @@ func findGlobals(files []*ast.File) []global {
 			continue
 		}
 		fn := funcName(fd)
+		// whole-variable stores `g = rhs`: store_always = a statement of the function body itself
+		// (not nested in a branch or loop), no return/panic/goto before it, and rhs built only
+		// from constants, function names, composite literals, make/new: the stored value depends
+		// on nothing but the function (theorem store_always_history_indep).  Anything else is
+		// store_conditional_or_dependent (the lazily filled singleton: store_if_unset_refuted).
+		always := map[*ast.AssignStmt]bool{}
+		early := false
+		for _, st := range fd.Body.List {
+			if as, ok := st.(*ast.AssignStmt); ok && as.Tok == token.ASSIGN && !early {
+				free := true
+				for _, r := range as.Rhs {
+					if !stateFree(r) {
+						free = false
+					}
+				}
+				if free {
+					always[as] = true
+				}
+			}
+			ast.Inspect(st, func(x ast.Node) bool {
+				switch y := x.(type) {
+				case *ast.FuncLit:
+					return false
+				case *ast.ReturnStmt:
+					early = true
+				case *ast.BranchStmt:
+					if y.Tok == token.GOTO {
+						early = true
+					}
+				case *ast.CallExpr:
+					if id, ok := y.Fun.(*ast.Ident); ok && id.Name == "panic" {
+						early = true
+					}
+				}
+				return true
+			})
+		}
 		ast.Inspect(fd.Body, func(x ast.Node) bool {
 			note := func(lhs ast.Expr) {
 				if o, _ := root(lhs); o != nil {
@@ -961,6 +998,16 @@ func findGlobals(files []*ast.File) []global {
 			case *ast.AssignStmt:
 				if s.Tok != token.DEFINE {
 					for _, l := range s.Lhs {
+						if o, deep := root(l); o != nil && !deep {
+							if g, ok := gl[o]; ok {
+								if always[s] {
+									g.writers[fn+" (store_always)"] = true
+								} else {
+									g.writers[fn+" (store_conditional_or_dependent)"] = true
+								}
+								continue
+							}
+						}
 						note(l)
 					}
 				}
@@ -1016,6 +1063,47 @@ func findGlobals(files []*ast.File) []global {
 		return out[i].name < out[j].name
 	})
 	return out
+}
+
+// stateFree: the expression reads no variable (local, parameter, receiver or package-level) and
+// calls nothing but make/new/conversions; function names and constants are allowed.
+func stateFree(e ast.Expr) bool {
+	ok := true
+	ast.Inspect(e, func(x ast.Node) bool {
+		switch y := x.(type) {
+		case *ast.FuncLit:
+			ok = false
+			return false
+		case *ast.KeyValueExpr:
+			// the key of a struct literal field is a field name, not a variable
+			if !stateFree(y.Value) {
+				ok = false
+			}
+			if _, isId := y.Key.(*ast.Ident); !isId && !stateFree(y.Key) {
+				ok = false
+			}
+			return false
+		case *ast.CallExpr:
+			if tv, has := info.Types[y.Fun]; has && tv.IsType() {
+				return true
+			}
+			if id, isId := y.Fun.(*ast.Ident); isId && (id.Name == "make" || id.Name == "new") {
+				if _, isB := info.Uses[id].(*types.Builtin); isB {
+					return true
+				}
+			}
+			ok = false
+			return false
+		case *ast.Ident:
+			if o := info.Uses[y]; o != nil {
+				if _, isVar := o.(*types.Var); isVar {
+					ok = false
+				}
+			}
+		}
+		return true
+	})
+	return ok
 }
 
 // ---------------------------------------------------------------- output
